@@ -228,7 +228,7 @@ func (dcc *dataConditionsContainer) finalize(r *Reader, queryPartIndex int, prev
 					if d.queryParts.IsSet(uint(queryPartIndex)) && d.name != v {
 						continue
 					}
-					quoted += binaryregexp.QuoteMeta(d.value) + "|"
+					quoted += quoteValue(d.value) + "|"
 				}
 				if quoted == "" {
 					badVarData[vdi] = struct{}{}
@@ -520,6 +520,22 @@ func (dcc *dataConditionsContainer) finalize(r *Reader, queryPartIndex int, prev
 	return append(filters, makeDataConditionFilter(dataSources, possibleSubQueries, dcc.conditions, dcc.regexes)), nil
 }
 
+// quoteValue returns an expression that matches exactly the bytes of the value. The parser reads
+// an expression as UTF-8 and a character up to U+00FF stands for that single byte, bytes from
+// 0x80 are therefore written as \xHH (QuoteMeta alone leaves them as they are).
+func quoteValue(value string) string {
+	quoted := binaryregexp.QuoteMeta(value)
+	res := make([]byte, 0, len(quoted))
+	for i := 0; i < len(quoted); i++ {
+		if b := quoted[i]; b >= 0x80 {
+			res = append(res, fmt.Sprintf(`\x%02x`, b)...)
+		} else {
+			res = append(res, b)
+		}
+	}
+	return string(res)
+}
+
 // literalPrefix returns the literal prefix that find may scan for. The scan cuts
 // the data in front of the prefix (and, if the prefix is the complete expression,
 // behind it), an assertion would then see a wrong start or end of the data:
@@ -680,7 +696,7 @@ func (ps *progressGroup) prepare(r *regex, pIdx int, e *query.DataConditionEleme
 			if !ok {
 				return nil, fmt.Errorf("variable %q not defined", v.Name)
 			}
-			content = binaryregexp.QuoteMeta(content)
+			content = quoteValue(content)
 		} else {
 			psq := possibleSubQueries[v.SubQuery]
 			vIdx := psq.variableIndex[v.Name]
